@@ -687,7 +687,7 @@ func runExC(cEx *vt.C, s ExScript) (bool, string, *vt.Finding) {
 }
 
 func TestExpand(t *testing.T) {
-	vt.Run(t, cEx, vt.N(15000, 600000), genEx, runEx)
+	vt.Run(t, cEx, vt.N(9000, 600000), genEx, runEx)
 }
 
 // TestExpandSweep: every YAML-typed text x every reference mode into the basic
@@ -733,6 +733,9 @@ func TestExpandSweep(t *testing.T) {
 		for _, txt := range yamlTyped {
 			for mode := 0; mode <= 4; mode++ {
 				for _, source := range []string{"map", "yaml"} {
+					if source == "yaml" && mode != 0 && mode != 2 {
+						continue // the YAML source form runs with one whole-value and one embedded mode
+					}
 					idx++
 					if idx%shards != shard || !exTextOK([]byte(txt)) {
 						continue
